@@ -54,3 +54,5 @@ def register_p2(reg, prop):
             f"implies(tmpl_block.block_type == {MsgBlockType.MBT_VARIABLE}, len(block_list) <= 255)",
         ],
         frame=["writer.buffer"]))
+    from pyvc.contracts import alias_loops_by_order
+    alias_loops_by_order(reg.fns["hippolyzer.lib.base.message.udpserializer:UDPMessageSerializer._serialize_block"])
